@@ -15,6 +15,7 @@ use std::io::{BufRead, BufReader, BufWriter, Write};
 use std::panic::{catch_unwind, AssertUnwindSafe};
 
 mod aead;
+mod curve;
 mod dig;
 mod hash;
 mod kdf;
@@ -112,6 +113,7 @@ fn run_history(h: &mut Ev) {
         "aead" => aead::run(h, &mut evs, false),
         "aead1" => aead::run(h, &mut evs, true),
         "fn" => kdf::run(h, &mut evs),
+        "feprog" => curve::run_feprog(h, &mut evs),
         _ => {
             for e in evs.iter_mut() {
                 e.as_object_mut().unwrap().insert("out".into(), Out::Bad(format!("harness: unknown class {}", cls)).to_json());
